@@ -515,7 +515,16 @@ def u11(rep, w):
             continue
         n += 1
         dom = f.dominators()
-        bad = [b for b in ie if not any(v in dom.get(b, ()) for v in vi)]
+        # the defect is an order: the range is decided *before* the integrality test that still follows. (A function whose index can also come
+        # from a length - an optional end argument - raises IndexError on paths validate_integer was never on, and that is fine.)
+        bad = []
+        for b in ie:
+            if any(v in dom.get(b, ()) for v in vi):
+                continue
+            tests = [d_ for d_ in dom.get(b, ()) if d_ != b and f.blocks[d_]['t']['t'] == 'switch']
+            tests = [max(tests, key=lambda d_: len(dom.get(d_, ())))] if tests else []      # the test that decides "out of range"
+            if any(v in f.reachable_blocks(d_) and v not in dom.get(b, ()) for d_ in tests for v in vi):
+                bad.append(b)
         r.check(not bad, '%s / IndexError only behind validate_integer' % f.path.replace('yarel::', ''),
                 '%s can raise IndexError for an operand that validate_integer has not seen yet: a fractional or NaN index that is also out of range is reported as IndexError '
                 'instead of ValueError' % f.path, f.loc())
